@@ -43,14 +43,16 @@ impl Adapter for TimeLimiterAd {
         // T: fixed timeout (ms); perReq = 1: timeout is key ms (keys 1..5); ord: builder call order
         let cancel = rng.below(2);
         // lazy = 1: the executor may poll late (only explored for the deterministic cancel mode)
-        json!({"T": *rng.pick(&[0u64, 1, 2, 3, 4, 6]), "perReq": rng.below(2), "cancel": cancel, "ord": rng.below(2), "lazy": if cancel == 1 && rng.pct(35) { 1 } else { 0 }})
+        json!({"T": *rng.pick(&[0u64, 1, 2, 3, 4, 6, 1000000]), "perReq": rng.below(2), "cancel": cancel, "ord": rng.below(2), "lazy": if cancel == 1 && rng.pct(35) { 1 } else { 0 }})
     }
     fn build(&mut self, cfg: &Value, sim: &mut Sim) {
-        let t = Duration::from_millis(cfg["T"].as_u64().unwrap());
+        // T >= 1000000 stands for "no deadline": Duration::MAX, fixed or per request
+        let unbounded = cfg["T"].as_u64().unwrap() >= 1000000;
+        let t = if unbounded { Duration::MAX } else { Duration::from_millis(cfg["T"].as_u64().unwrap()) };
         let cancel = cfg["cancel"].as_u64().unwrap() == 1;
         let ord = cfg["ord"].as_u64().unwrap_or(0) == 1;
         let inner = Inner::new(&sim.w);
-        let f = |r: &Req| Duration::from_millis(r.key as u64);
+        let f = move |r: &Req| if unbounded { Duration::MAX } else { Duration::from_millis(r.key as u64) };
         self.mkf = Some(if cfg["perReq"].as_u64().unwrap() == 1 {
             let b = TimeLimiterLayer::builder();
             let layer = if ord { b.cancel_running_future(cancel).timeout_fn(f).build() } else { b.timeout_fn(f).cancel_running_future(cancel).build() };
